@@ -11,7 +11,7 @@ import (
 func init() {
 	register(&Check{
 		ID: "C09", Level: "exploration", QuickSecs: 170, ThoroughSecs: 1500,
-		Rule:        "grammars S <- body ; A <- ... ; B <- ... where body ranges over all expressions (nested choices and sequences allowed) over {'a','b',\"ab\",'a'i,[ab],[^a],[^b],[b]i,.,A,B} x {?,*,+,&,!} up to N nodes (4; thorough adds every 11th 5-node body), A and B over the leaf-rule bodies {'a', \"ab\", [ab], 'a' 'b', 'a'/'b', [^a], x:'a'{act}, 'b'i}; every single label+action decoration of the body; a two-site family (one leaf rule - class with range, class, literal - inlined at two places next to DIFFERENT neighbours the optimizer merges it with, 4 shapes, inputs over {a,b,c}); a same-name label family (labelled leaf rule inlined next to equally named labels of the enclosing rule, 6 shapes); every subset of {A,B} as -alternate-entrypoints and every usable entrypoint at run time; all inputs over {a,b} up to L=3 (4). Unoptimized build vs -optimize-grammar build (real vs real) and both vs the reference: same success, same consumed prefix, same action invocations (id, pos, text, flat label values) in the same order, same flat value (regrouping of action-less structure is invisible, action-made values are not). Non-trivial = the optimizer changed the emitted grammar (expression count differs) and the input is matched or backtracks.",
+		Rule:        "grammars S <- body ; A <- ... ; B <- ... where body ranges over all expressions (nested choices and sequences allowed) over {'a','b',\"ab\",'a'i,[ab],[^a],[^b],[b]i,.,A,B} x {?,*,+,&,!} up to N nodes (4; thorough adds every 11th 5-node body), A and B over the leaf-rule bodies {'a', \"ab\", [ab], 'a' 'b', 'a'/'b', [^a], x:'a'{act}, 'b'i}; every single label+action decoration of the body; a two-site family (one leaf rule - class with range, class, literal - inlined at two places next to DIFFERENT neighbours the optimizer merges it with, 4 shapes, inputs over {a,b,c}); a same-name label family (labelled leaf rule inlined next to equally named labels of the enclosing rule, 6 shapes); a recovery family (leaf rules referenced inside and outside recovery operators and throws, 6 shapes x 4 leaf rules); every subset of {A,B} as -alternate-entrypoints and every usable entrypoint at run time; all inputs over {a,b} up to L=3 (4). Unoptimized build vs -optimize-grammar build (real vs real) and both vs the reference: same success, same consumed prefix, same action invocations (id, pos, text, flat label values) in the same order, same flat value (regrouping of action-less structure is invisible, action-made values are not). Non-trivial = the optimizer changed the emitted grammar (expression count differs) and the input is matched or backtracks.",
 		Assumptions: []string{"E1 loader", "flat value rendering: concatenated matched bytes, action-made values kept"},
 		Run:         runC09,
 	})
@@ -140,6 +140,12 @@ func runC09(c *ShardCtx) {
 				return
 			}
 			one(g, [][]string{nil})
+		}
+		for _, g := range recoveryOptFamily() {
+			if c.Expired("recovery family") {
+				return
+			}
+			one(g, [][]string{nil, {"B"}})
 		}
 		inputs = saved
 	}
@@ -298,4 +304,26 @@ func optGrammarVsReference(c *ShardCtx, g *peg.Grammar, gens []core.Gen, inputs 
 			}
 		}
 	}
+}
+
+// recoveryOptFamily: leaf rules referenced inside and outside recovery
+// operators and throws (the optimizer has to treat both sides of a recovery
+// expression like any other expression).
+func recoveryOptFamily() []*peg.Grammar {
+	lit := peg.Lit
+	var out []*peg.Grammar
+	leafs := []func() *peg.Expr{func() *peg.Expr { return lit("b") }, func() *peg.Expr { return peg.Cls(false, false, "a", "b") }, func() *peg.Expr { return peg.Seq(lit("a"), lit("b")) }, func() *peg.Expr { return peg.Choice(lit("a"), peg.Throw("l")) }}
+	for _, lf := range leafs {
+		for _, body := range []*peg.Expr{
+			peg.Seq(peg.Ref("B"), peg.Recover(peg.Ref("B"), peg.Ref("C"), "l")),
+			peg.Recover(peg.Seq(peg.Ref("B"), peg.Throw("l")), peg.Ref("B"), "l"),
+			peg.Recover(peg.Choice(peg.Seq(peg.Ref("B"), lit("c")), peg.Throw("l")), peg.Seq(peg.Ref("C"), peg.Ref("B")), "l"),
+			peg.Seq(peg.Recover(peg.Ref("C"), peg.Ref("B"), "l"), peg.Opt(peg.Ref("B"))),
+			peg.Star(peg.Recover(peg.Seq(peg.Ref("B"), peg.Ref("C")), lit("c"), "l", "m")),
+			peg.Recover(peg.Recover(peg.Seq(lit("a"), peg.Throw("m")), peg.Ref("B"), "l"), peg.Ref("C"), "m"),
+		} {
+			out = append(out, &peg.Grammar{Rules: []*peg.Rule{{Name: "S", Expr: body.Clone()}, {Name: "B", Expr: lf()}, {Name: "C", Expr: peg.Choice(lit("c"), peg.Throw("l"))}}})
+		}
+	}
+	return out
 }
